@@ -29,6 +29,15 @@ def run(ctx, which):
     _patch()
     n = 0
     for name in which:
+        if name == "factorize":
+            from . import finalize_proofs
+
+            finalize_proofs._patch()
+            for c, callees, fs in F.all_factorize():
+                c.prefix = ctx.pid + c.prefix[3:]
+                ex, obs = add_to_ctx(ctx, c, callees)
+                n += len(obs)
+            continue
         c = F.CONTRACTS[name]()
         if name.startswith("cut_"):
             c.replay = F.replay_cut(name[4:])
